@@ -222,4 +222,20 @@ theorem hook_witness :
     validateGraphX Impl.repaired hook3 (gDirect (some (.int 4))) 0 = .ok ∧
     (submitX Impl.repaired hook3 (gDirect (some (.int 4))) {} 0).2.jobs = [0] := by decide
 
+/-! ### non-vacuity of the named hypotheses `FlagsOkX` / `AdmissibleX` (audit round 8, item 6): a history with a hook (class 1 refuses `x = 3`) and a
+    checker (`Choices([3, 4])` on the first argument of class 1) over the graph `gDirect`: a refused value, a stored value the hook rejects at
+    submission, a corrected value, an accepted submission -/
+def chk34 : Checkers := fun c k => if c == 1 && k == 0 then some (.choices [.int 3, .int 4]) else none
+def sX : HState := { g := gDirect none }
+def opsX : List HOp := [.assign 1 0 (.int 5), .assign 1 0 (.int 3), .submit 0, .assign 1 0 (.float (.fin false 1 2)), .submit 0]
+
+theorem sX_flagsOkX : FlagsOkX Impl.repaired hook3 sX.g sX.flags := by intro m hm; cases hm
+
+theorem opsX_admissibleX : AdmissibleX Impl.repaired chk34 hook3 sX opsX := by
+  simp only [opsX, AdmissibleX]
+  refine ⟨?_, ?_, ?_, ?_, ?_, trivial⟩ <;> (intro n k v h; cases h <;> decide)
+
+example := historyX_sound Impl.repaired chk34 hook3 (by decide) sX opsX sX_flagsOkX opsX_admissibleX
+example : (hrunX Impl.repaired chk34 hook3 sX opsX).map (·.2.2) ≠ [] := by decide
+
 end XpmVerif.C15
